@@ -745,7 +745,7 @@ def arm_end_line(arm):
 
 
 def entry_rule(rep, ctx, f, sfx):
-    r = rep.rule("C02.ENTRY" + sfx, 2, "both back-ends run the start rule inside pest::state")
+    r = rep.rule("C02.ENTRY" + sfx, 4, "both back-ends run the start rule inside pest::state")
     vp = ctx.vm.fn(VM + "::parse")
     ok = vp is not None and any(callee(x) == "pest::parser_state::state" for x in walk(vp["body"]) if kind(x) == "Call")
     r.instance("vm", where(vp["body"]) if vp else "")
@@ -756,3 +756,25 @@ def entry_rule(rep, ctx, f, sfx):
     r.instance("generator", "%s:%s" % (GENFILE, raw[0]["line"]) if raw else "")
     if not raw:
         r.violation("generator", GENFILE, "the generated Parser::parse does not call ::pest::state")
+    # start-rule dispatch: every `Rule::x` arm calls the function of the same rule
+    arms = [m for m in ctx.macros[GENFILE] if m["macro"] == "quote" and m["fn"] == "generate_patterns" and "=>" in m.get("raw", "")]
+    r.instance("generator:dispatch", "%s:%s" % (GENFILE, arms[0]["line"]) if arms else "", "%d arm templates" % len(arms))
+    if not arms:
+        r.violation("generator:dispatch", GENFILE, "start-rule dispatch templates not found in generate_patterns")
+    for m in arms:
+        mm = re.search(r"Rule\s*::\s*(#\s*)?(\w+)\s*=>\s*rules\s*::\s*(#\s*)?(\w+)\s*\(\s*state\s*\)", m["raw"])
+        if not mm or mm.group(2) != mm.group(4) or bool(mm.group(1)) != bool(mm.group(3)):
+            r.violation("generator:dispatch", "%s:%s" % (GENFILE, m["line"]),
+                        "the generated start-rule dispatch `%s` does not call the function of the rule it matches: "
+                        "parsing from that rule runs another rule in the derived parser, the VM runs the named one"
+                        % m["raw"].strip()[:80])
+    vr = ctx.vm.fn(VM + "::parse")
+    if vr is not None:
+        ok2 = False
+        for x in walk(vr["body"]):
+            if kind(x) == "MethodCall" and x.get("path") == VM + "::parse_rule":
+                a = peel(x["args"][0])
+                ok2 = kind(a) == "Path" and a.get("res") == "local" and a["name"] == "rule"
+        r.instance("vm:dispatch", where(vr["body"]))
+        if not ok2:
+            r.violation("vm:dispatch", where(vr["body"]), "Vm::parse does not start from the rule it was given")
